@@ -118,3 +118,75 @@ SPECS += [
         props=["C01", "C02", "C04", "C09", "C10", "C14"],
     ),
 ]
+
+AD = "self.managed_indicators['ADX_data']"
+HI1, LO1 = "num(Rd(c, j - 1, 'high'))", "num(Rd(c, j - 1, 'low'))"
+HI0, LO0 = "num(Rd(c, j, 'high'))", "num(Rd(c, j, 'low'))"
+UP, DOWN = f"({HI0} - {HI1})", f"({LO1} - {LO0})"
+SPECS += [
+    IndSpec(
+        "hexital.indicators.adx.ADX",
+        params=dict(RV, period=("int", None), period_signal=("int", None)),
+        lets=dict(LETS, w="period", wa="period + period_signal - 1", ATRN="f'{N}_atr'", PN="f'{N}_pos'", NN="f'{N}_neg'", DXN="f'{N}_dx'",
+                  DP="f'{N}_data.pos'", DN="f'{N}_data.neg'", DDX="f'{N}_data.dx'",
+                  FA="f'{N}.ADX'", FP="f'{N}.DM_Plus'", FN="f'{N}.DM_Neg'"),
+        extra_pre=dict(PRE_RV, **{"periods": "period >= 2 and period_signal >= 2"}),
+        helpers=["f'{N}_data'"],
+        subs={
+            "self.sub_indicators[f'{N}_atr']": {"role": "prior"},
+            AD + ".sub_indicators[f'{N}_pos']": {"role": "helper", "ghost": {"s": "1"}},
+            AD + ".sub_indicators[f'{N}_neg']": {"role": "helper", "ghost": {"s": "1"}},
+            "self.managed_indicators['dx']": {"role": "helper", "ghost": {"s": "w"}},
+        },
+        inv={
+            "dict": (f"isdict({R('N')})", ["C06", "C09"]),
+            "directional-movement": (f"iff({R('DP')} is not None, j >= 1) and iff({R('DN')} is not None, j >= 1) and implies(j >= 1,"
+                                     f" isnum({R('DP')}) and isnum({R('DN')})"
+                                     f" and {NUM('DP')} == ({UP} if {UP} > {DOWN} and {UP} > 0 else 0)"
+                                     f" and {NUM('DN')} == ({DOWN} if {DOWN} > {UP} and {DOWN} > 0 else 0))", ["C06", "C09"]),
+            "dx-series": (f"iff({R('DDX')} is not None, j >= w) and implies(j >= w, isnum({R('DDX')}))", ["C06", "C09"]),
+            "presence": (f"iff({R('FP')} is not None, j >= w) and iff({R('FN')} is not None, j >= w) and iff({R('FA')} is not None, j >= wa)", ["C06", "C09"]),
+            "plus-di": (f"implies(j >= w and {NUM('ATRN')} != 0, Abs({NUM('FP')} - 100 * {NUM('PN')} / {NUM('ATRN')}) <= eps)", ["C06"]),
+            "minus-di": (f"implies(j >= w and {NUM('ATRN')} != 0, Abs({NUM('FN')} - 100 * {NUM('NN')} / {NUM('ATRN')}) <= eps)", ["C06"]),
+            "di-flat-market": (f"implies(j >= w and {NUM('ATRN')} == 0, {NUM('FP')} == 0 and {NUM('FN')} == 0)", ["C06"]),
+            "adx-is-smoothed-dx": (f"implies(j >= wa, isfloat({R('FA')}) and Abs({NUM('FA')} - {NUM('DXN')}) <= eps)", ["C06"]),
+        },
+        window="1",
+        props=["C01", "C02", "C06", "C09", "C10", "C14"],
+    ),
+]
+
+CL = "num(Rd(c, j, 'close'))"
+UPD, LOD = "f'{N}_data.upper'", "f'{N}_data.lower'"
+DIR, TRD, LNG, SHT = "f'{N}.direction'", "f'{N}.trend'", "f'{N}.long'", "f'{N}.short'"
+PUP, PLO = "num(Rd(c, j - 1, f'{N}_data.upper'))", "num(Rd(c, j - 1, f'{N}_data.lower'))"
+RAWU = "(num(Rd(c, j, f'{N}_HL')) + multiplier * num(Rd(c, j, f'{N}_atr')))"
+RAWL = "(num(Rd(c, j, f'{N}_HL')) - multiplier * num(Rd(c, j, f'{N}_atr')))"
+SPECS += [
+    IndSpec(
+        "hexital.indicators.supertrend.Supertrend",
+        params=dict(RV, period=("int", None), multiplier=("float", None)),
+        lets=dict(LETS, w="period"),
+        extra_pre=dict(PRE_RV, **{"period>=2": "period >= 2", "multiplier>0": "multiplier > 0"}),
+        helpers=["f'{N}_data'"],
+        subs={"self.sub_indicators[f'{N}_atr']": {"role": "prior"},
+              "self.sub_indicators[f'{N}_HL']": {"role": "prior"}},
+        inv={
+            "dict": (f"isdict({R('N')})", ["C05", "C09"]),
+            "direction-is-plus-or-minus-one": (f"isint({R(DIR)}) and ({NUM(DIR)} == 1 or {NUM(DIR)} == -1)", ["C05", "C10"]),
+            "bands-stored": (f"iff({R(UPD)} is not None, j >= w) and iff({R(LOD)} is not None, j >= w) and implies(j >= w, isnum({R(UPD)}) and isnum({R(LOD)}))", ["C05", "C09"]),
+            "presence": (f"iff({R(TRD)} is not None, j >= w) and implies(j < w, {R(LNG)} is None and {R(SHT)} is None and {NUM(DIR)} == 1)", ["C05", "C09"]),
+            "exactly-one-of-long-short": (f"implies(j >= w, iff({R(LNG)} is not None, {NUM(DIR)} == 1) and iff({R(SHT)} is not None, {NUM(DIR)} == -1))", ["C10"]),
+            "trend-equals-active-band": (f"implies(j >= w and {NUM(DIR)} == 1, {NUM(TRD)} == {NUM(LNG)} and Abs({NUM(TRD)} - {NUM(LOD)}) <= eps)"
+                                         f" and implies(j >= w and {NUM(DIR)} == -1, {NUM(TRD)} == {NUM(SHT)} and Abs({NUM(TRD)} - {NUM(UPD)}) <= eps)", ["C05", "C10"]),
+            "first-bands": (f"implies(j == w, {NUM(UPD)} == {RAWU} and {NUM(LOD)} == {RAWL} and {NUM(DIR)} == 1)", ["C05"]),
+            "flip-up-when-close-breaks-upper": (f"implies(j > w and {CL} > {PUP}, {NUM(DIR)} == 1 and {NUM(UPD)} == {RAWU} and {NUM(LOD)} == {RAWL})", ["C05"]),
+            "flip-down-when-close-breaks-lower": (f"implies(j > w and not ({CL} > {PUP}) and {CL} < {PLO}, {NUM(DIR)} == -1 and {NUM(UPD)} == {RAWU} and {NUM(LOD)} == {RAWL})", ["C05"]),
+            "otherwise-direction-kept": (f"implies(j > w and not ({CL} > {PUP}) and not ({CL} < {PLO}), {NUM(DIR)} == num(Rd(c, j - 1, f'{{N}}.direction')))", ["C05"]),
+            "lower-band-only-rises-in-uptrend": (f"implies(j > w and not ({CL} > {PUP}) and not ({CL} < {PLO}) and {NUM(DIR)} == 1, {NUM(LOD)} == Max({RAWL}, {PLO}) and {NUM(UPD)} == {RAWU})", ["C05"]),
+            "upper-band-only-falls-in-downtrend": (f"implies(j > w and not ({CL} > {PUP}) and not ({CL} < {PLO}) and {NUM(DIR)} == -1, {NUM(UPD)} == Min({RAWU}, {PUP}) and {NUM(LOD)} == {RAWL})", ["C05"]),
+        },
+        window="1",
+        props=["C01", "C02", "C05", "C09", "C10", "C14"],
+    ),
+]
